@@ -81,6 +81,9 @@ def gen(ctx):
         bool(re.search(r"retscope = scope:get_up_function_scope\(\)", ret))
     inn = func("visitors.In")
     in_first = 0 <= inn.find("'_expr = '") < inn.find("emitter:add(deferemitter)")
+    in_goto_rule = bool(re.search(
+        r"local needgoto = true\s+if context:get_visiting_node\(2\)\.is_DoExpr then\s+local blockstats = context:get_visiting_node\(1\)\s+"
+        r"if node == blockstats\[#blockstats\] then[^\n]*\n\s+needgoto = false\s+end\s+end\s+if needgoto then", inn))
     co = func("visitors.Continue")
     cont_order = 0 <= co.find("emit_repeat_stop(emitter)") < co.find("emit_close_upscopes(") < co.find("'continue;'")
     br = func("visitors.Break")
@@ -129,6 +132,7 @@ def gen(ctx):
            "Definition gen_defer_registers_on_current_scope : bool := %s.\n" % b(defer_reg) +
            "Definition gen_defer_blocks_appended : bool := %s.\n" % b(append) +
            "Definition gen_fallthrough_closes_scope : bool := %s.\n" % b(ft_closes) +
+           "Definition gen_in_goto_omitted_only_for_last_statement_of_doexpr_block : bool := %s.\n" % b(in_goto_rule) +
            "Definition gen_block_resets_deferblocks : bool := %s.\n" % b(resets) +
            "Definition gen_close_defers_in_declaration_order : bool := %s.\n" % b(close_decl_order) +
            "Definition gen_jump_out_of_defer_rejected : bool := %s.\n" % b(jump_rejected))
@@ -136,7 +140,7 @@ def gen(ctx):
     return {"breakflow_tags": tags, "close_loop": list(loop), "closing_guard": guard, "block_order": blk_order,
             "return_value_saved_before_cleanup": ret_tmp_first, "in_value_before_cleanup": in_first,
             "continue_order": cont_order, "break_order": break_order, "upscopes": [up_first, up_loop],
-            "fallthrough_closes_scope": ft_closes, "block_resets_deferblocks": resets,
+            "fallthrough_closes_scope": ft_closes, "block_resets_deferblocks": resets, "in_goto_omitted_only_for_last_statement_of_doexpr_block": in_goto_rule,
             "close_defers_in_declaration_order": close_decl_order, "jump_out_of_defer_rejected": jump_rejected}
 
 
@@ -261,7 +265,10 @@ def correspond(ctx):
         g = c15gen.Gen(rng, **kw)
         tests = []
         for _ in range(per_file):
-            void, body = g.targeted() if name == "targeted" else g.program()
+            if name == "targeted":
+                void, body = g.targeted() if rng.random() < 0.5 else g.doexpr_targeted()
+            else:
+                void, body = g.program()
             tests.append((void, body, oracles_for(rng, norc), name, None, False))
         files.append(tests)
 
